@@ -174,6 +174,9 @@ def classPrio (cls : String) : Nat := if cls == "class=other" then 0 else 1
 
 def run1 (c : Case) : CaseResult := Id.run do
   if c.tag == "empty" then return { verdict := .ok, nontrivial := false }
+  -- edit-history snapshots that are degenerate (three collinear graph points) or whose history ended early
+  if (c.get1 "skip").isSome && (c.get1 "crash").isNone then
+    return { verdict := .ok, nontrivial := false, stats := [("skippedSnapshot", 1)] }
   -- the harness runs every case in a child process; an abort (failed assertion, sanitizer report, leak)
   -- is reported as a `crash` line: no routes were produced for a valid scene
   if let some l := c.get1 "crash" then
